@@ -39,7 +39,7 @@ Section Theorems2.
     - exact H.
     - unfold do_start. destruct (r_state st); try exact H;
         (destruct (negb (subset N.eqb (if null cols then allcols else cols) allcols)); [exact H|]; cbn; apply in_or_app; left; exact H).
-    - unfold do_visit. destruct (r_state st); try exact H. destruct (qget (r_queue st) c); [exact H|]. destruct (e_tomb e); exact H.
+    - unfold do_visit. destruct (r_state st); try exact H. destruct (qget (r_queue st) c); [exact H|]. destruct (e_skip e); exact H.
     - unfold do_stop. destruct (r_state st); exact H.
     - unfold do_crash. destruct (r_state st); exact H.
     - unfold do_finish. destruct (r_state st); try exact H. destruct (forallb (fun p => null (snd p)) (r_queue st)); exact H.
@@ -72,7 +72,7 @@ Section Theorems2.
     - unfold do_start. destruct (r_state st); try reflexivity;
         (destruct (negb (subset N.eqb (if null cols then allcols else cols) allcols)); reflexivity).
     - unfold do_visit in *. destruct (r_state st) eqn:Es; try reflexivity.
-      destruct (qget (r_queue st) c') as [|e q'] eqn:Eq; [reflexivity|]. destruct (e_tomb e); [reflexivity|]. cbn in *.
+      destruct (qget (r_queue st) c') as [|e q'] eqn:Eq; [reflexivity|]. destruct (e_skip e); [reflexivity|]. cbn in *.
       destruct (b_queue _ _ st B c' e) as [H1 H2]; [rewrite Eq; left; reflexivity|].
       assert (Hne : c' <> c). { intros ->. apply Hn. apply (b_cols _ _ st B Es). exact H2. }
       unfold visit_docs. apply filter_map_same.
@@ -103,7 +103,7 @@ Section Theorems2.
     - exact H.
     - unfold do_start. destruct (r_state st); try exact H;
         (destruct (negb (subset N.eqb (if null cols then allcols else cols) allcols)); exact H).
-    - unfold do_visit. destruct (r_state st); try exact H. destruct (qget (r_queue st) c); [exact H|]. destruct (e_tomb e); exact H.
+    - unfold do_visit. destruct (r_state st); try exact H. destruct (qget (r_queue st) c); [exact H|]. destruct (e_skip e); exact H.
     - unfold do_stop. destruct (r_state st); exact H.
     - unfold do_crash. destruct (r_state st); exact H.
     - unfold do_finish. destruct (r_state st); try exact H. destruct (forallb (fun p => null (snd p)) (r_queue st)); [|exact H].
@@ -215,7 +215,7 @@ Section Theorems2.
       + intros H. rewrite D2 in H. discriminate.
     - unfold do_visit. destruct (r_state st) eqn:Es; try exact D.
       destruct (qget (r_queue st) c) as [|e q']; [exact D|].
-      destruct (e_tomb e); unfold DInv; cbn; (split; [intros _; apply D1; discriminate|]); [exact D2|].
+      destruct (e_skip e); unfold DInv; cbn; (split; [intros _; apply D1; discriminate|]); [exact D2|].
       destruct (visit_wrote col_of syncs fixed (r_regen st) s (e_id e) (r_docs st)); [intros _; lia|].
       rewrite orb_false_r. exact D2.
     - unfold do_stop. destruct (r_state st) eqn:Es; try exact D. unfold DInv. cbn. split; [intros _; apply D1; discriminate | exact D2].
@@ -257,7 +257,7 @@ Section Theorems2.
         (destruct (negb (subset N.eqb (if null cols then allcols else cols) allcols)); exists []; cbn; rewrite app_nil_r; reflexivity).
     - unfold do_visit. destruct (r_state st); try (exists []; rewrite app_nil_r; reflexivity).
       destruct (qget (r_queue st) c); [exists []; rewrite app_nil_r; reflexivity|].
-      destruct (e_tomb e); [exists []; cbn; rewrite app_nil_r; reflexivity|]. cbn.
+      destruct (e_skip e); [exists []; cbn; rewrite app_nil_r; reflexivity|]. cbn.
       destruct (visit_wrote col_of syncs fixed (r_regen st) s (e_id e) (r_docs st) && r_regen st); [exists [s] | exists []; rewrite app_nil_r]; reflexivity.
     - unfold do_stop. destruct (r_state st); exists []; cbn; rewrite app_nil_r; reflexivity.
     - unfold do_crash. destruct (r_state st); exists []; cbn; rewrite app_nil_r; reflexivity.
@@ -302,7 +302,7 @@ Section Theorems2.
          unfold NInv; cbn; repeat (split; [assumption|]); discriminate).
     - unfold do_visit in *. destruct (r_state st) eqn:Es; try exact NI.
       destruct (qget (r_queue st) c) as [|e q']; [exact NI|].
-      destruct (e_tomb e); [unfold NInv; cbn; repeat (split; [assumption|]); discriminate|].
+      destruct (e_skip e); [unfold NInv; cbn; repeat (split; [assumption|]); discriminate|].
       cbn in Hnd, Hhi. unfold NInv. cbn.
       set (wrt := visit_wrote col_of syncs fixed (r_regen st) s (e_id e) (r_docs st)) in *.
       set (alloc' := if wrt && r_regen st then r_alloc st ++ [s] else r_alloc st) in *.
@@ -383,9 +383,10 @@ Section Theorems2.
     unfold after. rewrite E. rewrite H1, H2. split; [exact Hs | apply in_or_app; right; left; reflexivity].
   Qed.
 
-  Lemma reseq_tomb : forall hi0 d, tombstoned d = true -> reseq hi0 d.
+  Lemma reseq_none : forall hi0 rg s d, rg = true -> resync_doc (fn (d_id d)) fixed rg s d = None -> reseq hi0 d.
   Proof.
-    intros hi0 d H Hl. unfold live_b, tombstoned in *. destruct (d_cur d) as [[[r b] del]|]; [subst del|]; discriminate.
+    intros hi0 rg s d -> H Hl. destruct (resync_doc_regen_live body (fn (d_id d)) fixed s d Hl) as [d' [E _]].
+    rewrite E in H. discriminate.
   Qed.
 
   Definition regen_op (hi0 : N) (op : rop) : Prop :=
@@ -444,7 +445,7 @@ Section Theorems2.
     split; [|split; [exact N2|]].
     - intros d Hd Hcol. revert d Hd Hcol.
       apply (completed_good body empty col_of syncs allcols fixed (reseq hi0) false (fun rg => rg) (fun s => hi0 <? s)
-               (fun rg s d H1 H2 => reseq_after hi0 rg s d H1 H2) (reseq_tomb hi0) (fun (H : false = true) => ltac:(discriminate)) ops st0 B Hs); [|exact Hc].
+               (fun rg s d H1 H2 => reseq_after hi0 rg s d H1 H2) (fun rg s d H1 H2 => reseq_none hi0 rg s d H1 H2) (fun (H : false = true) => ltac:(discriminate)) ops st0 B Hs); [|exact Hc].
       apply Forall_forall. intros op Hop. rewrite Forall_forall in F. specialize (F op Hop). destruct op; cbn in *; auto; try (apply N.ltb_lt; exact F); try destruct F.
     - intros Hh.
       assert (Hrg : r_regen st = true).
